@@ -68,6 +68,12 @@ def execute(jobs: list) -> list[dict]:
     return out
 
 
+def _diag(r) -> str:
+    """what TLC said, without the printed schedules / sequences"""
+    keep = [l for l in r.out.splitlines() if not l.startswith(('"SCHED', '"SOLO', '"VSOLO', '"CFGS')) and l.strip()]
+    return f"(timed out: {getattr(r, 'timed_out', '?')}, rc {getattr(r, 'rc', '?')}) " + "\n".join(keep[-25:])[-2500:]
+
+
 class Run:
     def __init__(self, prop: str, tier: str):
         self.prop = prop
@@ -106,7 +112,7 @@ class Run:
         if r.violated:
             self.model_violated += [f"{name}:{v or 'temporal'}" for v in r.violated]
         elif not r.completed and not kw.get("simulate") and not timed_out:
-            raise MachineryError(f"TLC did not complete on instance {name}: " + r.out[-1500:])
+            raise MachineryError(f"TLC did not complete on instance {name}: " + _diag(r))
         return r
 
     # ---- schedules from TLC, executed on the real handlers ----
@@ -115,7 +121,7 @@ class Run:
         kw.setdefault("maxhist", 120)
         r = models.run_model(self.wd, name, cfgs, record=True, seed=seed(), **kw)
         if not (r.completed or kw.get("simulate")) and "TLC-TIMEOUT" not in r.out:
-            raise MachineryError(f"schedule generation {name} failed: " + r.out[-1500:])
+            raise MachineryError(f"schedule generation {name} failed: " + _diag(r))
         cfgs_by_id, sch = models.schedules(r)
         r.out = r.out[-4000:]          # the schedules are parsed: free the (possibly huge) TLC output
         if limit is not None and len(sch) > limit:
@@ -142,12 +148,12 @@ class Run:
         if viol:
             self.model_violated.append(f"{name}:" + json.dumps(viol[0][1])[:300])
         elif not r.completed and not timed_out:
-            raise MachineryError(f"TLC did not complete on solo instance {name}: " + r.out[-1500:])
+            raise MachineryError(f"TLC did not complete on solo instance {name}: " + _diag(r))
         if timed_out:
             self.exhaustive = False
         if n_all > len(seqs):
             self.exhaustive = False
-        for cid, ins in seqs:
+        for cid, ins in list(models.solo_sequences.violating) + seqs:
             self.jobs.append(("solo", self.next_tid, props, (cfgs_by_id[cid], side, ins)))
             self.next_tid += 1
         self.states += r.distinct
